@@ -12,7 +12,16 @@ virtual-time loop.  Nothing of taskiq / taskiq_dependencies is re-implemented; w
     traversal (the moment the resolver copies its initial cache) and tells dependency bodies which context
     computed their kwargs; `DependencyGraph.async_ctx` is wrapped to log its call;
   * the task body (args / kwargs / Context echo, outcome), a recording middleware (on_error, post_execute,
-    post_save), a recording result backend (set_result call) and the message's ack callable.
+    post_save), a recording result backend (set_result call) and the message's ack callable;
+  * scripted writes (`muts` of a message plan): a dependency (while opening / in its teardown) or the task function
+    (at its start / after its awaits) writes to what it was given - a label set in place, `Context.requeue()` (which
+    bumps X-Taskiq-requeue in place; `broker.kick` is replaced by a recorder so that nothing is executed again), the
+    args list, the kwargs dict, `ctx.message` re-assigned to a private copy - each logged as a `mut` event.  Every
+    echo is the full message the reader holds at that moment (task id, args, kwargs, labels); dependencies echo once
+    more in their teardown and the task function after its awaits.
+
+Messages may carry no labels at all (`nolabels`), tasks may be declared with labels (`labels` of a task spec), and
+several deliveries may carry the same task id (`tid`): an execution is identified by its delivery index only.
 
 The execution an event belongs to is carried by a ContextVar set by the harness task that calls
 `Receiver.callback` (propagated into the worker thread of sync task functions by the loop subclass) - it does
@@ -70,6 +79,7 @@ class Run:
         self.objs = []
         self.src = {}           # exec -> context number that computed the kwargs of the next dependency call
         self.pause_i = {}
+        self.toksrc = {}        # token -> context number that computed the kwargs of that dependency call
         self.broker = None
 
     def ev(self, *a):
@@ -177,17 +187,54 @@ class Loop(vloop.VLoop):
 
 
 # --------------------------------------------------------------------------- helpers called by the generated bodies
+def jsonable(v):
+    if isinstance(v, dict):
+        return {str(k): jsonable(x) for k, x in v.items()}
+    if isinstance(v, (list, tuple)):
+        return [jsonable(x) for x in v]
+    return v if isinstance(v, (int, float, str, bool, type(None))) else repr(v)[:60]
+
+
+def snapshot(m):
+    """the whole message a reader holds, as it is at this moment"""
+    return {"tid": m.task_id, "args": jsonable(m.args), "kwargs": jsonable(m.kwargs), "labels": jsonable(m.labels)}
+
+
 def echo(ctx):
     if ctx is None:
         return None
-    m = ctx.message
-    return [m.task_id, m.args[0] if m.args else None, m.labels.get("who"), m.kwargs.get("kw")]
+    return snapshot(ctx.message)
+
+
+def apply_muts(e, at, ctx, node=None):
+    """the scripted writes of execution e at this point, through the Context it was given (never through anything
+    the harness holds).  `requeue` is not handled here (it is awaited by the task body)."""
+    if ctx is None:
+        return
+    for mu in R.plan(e).get("muts") or []:
+        if mu["at"] != at or mu.get("node") != node or mu["op"] == "requeue":
+            continue
+        op = mu["op"]
+        if op == "setmsg":
+            # the Context's message re-assigned to a private deep copy; later writes through ctx go to the copy
+            ctx.message = ctx.message.model_copy(deep=True)
+        elif op == "label":
+            ctx.message.labels["w%d" % e] = e
+        elif op == "arg":
+            ctx.message.args.append(100 + e)
+        elif op == "kwarg":
+            ctx.message.kwargs["x%d" % e] = e
+        else:
+            raise ValueError(op)
+        R.ev("mut", e, op, at, node)
 
 
 def h_enter(node, ctx, ucfg=None):
     e = EXEC.get()
     R.tok += 1
+    R.toksrc[R.tok] = R.src.get(e)
     R.ev("enter", e, node, R.tok, R.src.get(e), echo(ctx), None if ucfg is None else getattr(ucfg, "tag", "?"))
+    apply_muts(e, "node", ctx, node)
     return R.tok
 
 
@@ -216,8 +263,11 @@ def h_ready(node, tok):
     R.pending[EXEC.get()] = (tok, node)
 
 
-def h_close(node, tok, saw):
-    R.ev("close", EXEC.get(), node, tok, None if saw is None else type(saw).__name__)
+def h_close(node, tok, saw, ctx=None):
+    e = EXEC.get()
+    R.ev("close", e, node, tok, None if saw is None else type(saw).__name__, R.toksrc.get(tok), echo(ctx))
+    if not isinstance(saw, GeneratorExit):
+        apply_muts(e, "close", ctx, node)
 
 
 def h_closed(node, tok):
@@ -228,17 +278,37 @@ def h_val(node, tok):
     return [node, tok]
 
 
+def wants_requeue(plan, ctx):
+    return ctx is not None and any(mu["op"] == "requeue" for mu in plan.get("muts") or [])
+
+
 async def h_body(t, tok, kw, ctx, vals):
     e = EXEC.get()
     plan = R.plan(e)
     payload = {"arg": tok, "kw": kw, "echo": echo(ctx), "task": t}
     R.ev("task_start", e, t, payload, vals)
+    apply_muts(e, "start", ctx)
     try:
         for d in plan.get("dur") or []:
             await asyncio.sleep(d / 1_000_000)
     except asyncio.CancelledError:
         R.ev("task_end", e, "cancelled")
         raise
+    apply_muts(e, "end", ctx)
+    if ctx is not None:
+        R.ev("read", e, "task", 0, echo(ctx))
+    if wants_requeue(plan, ctx):
+        # the built-in Context.requeue(): bumps X-Taskiq-requeue of ctx.message in place, kicks, raises NoResultError
+        R.ev("mut", e, "requeue", "end", None)
+        try:
+            await ctx.requeue()
+        except asyncio.CancelledError:
+            R.ev("task_end", e, "cancelled")
+            raise
+        except NoResultError:
+            R.ev("read", e, "task", 0, echo(ctx))
+            R.ev("task_end", e, "noresult")
+            raise
     return h_finish(e, plan, payload)
 
 
@@ -246,6 +316,10 @@ def h_body_sync(t, tok, kw, ctx, vals):
     e = EXEC.get()
     payload = {"arg": tok, "kw": kw, "echo": echo(ctx), "task": t}
     R.ev("task_start", e, t, payload, vals)
+    apply_muts(e, "start", ctx)
+    apply_muts(e, "end", ctx)
+    if ctx is not None:
+        R.ev("read", e, "task", 0, echo(ctx))
     return h_finish(e, R.plan(e), payload)
 
 
@@ -273,10 +347,11 @@ def node_src(k, n):
         params.append("p%d=TaskiqDepends(node_%d, use_cache=%s)" % (j, child, bool(cached)))
         vals.append("p%d" % j)
     sig = ", ".join(params)
-    cx = ("ctx" if n.get("ctx") else "None") + (", ucfg" if n.get("user") else "")
+    cxo = "ctx" if n.get("ctx") else "None"
+    cx = cxo + (", ucfg" if n.get("user") else "")
     st = n["style"]
     swallow = bool(n.get("swallow"))
-    tail = ("    h_close({k}, tok, saw)\n{post}    h_closed({k}, tok)\n"
+    tail = ("    h_close({k}, tok, saw, {cxo})\n{post}    h_closed({k}, tok)\n"
             "    if saw is not None and (not {sw} or isinstance(saw, GeneratorExit)):\n        raise saw\n")
     if st == "plain":
         return ("def node_{k}({sig}):\n    tok = h_enter({k}, {cx})\n    h_fail({k}, tok, 'early')\n"
@@ -288,14 +363,14 @@ def node_src(k, n):
         deco = "@contextlib.contextmanager\n" if st == "cm" else ""
         return (deco + "def node_{k}({sig}):\n    tok = h_enter({k}, {cx})\n    h_fail({k}, tok, 'early')\n"
                 "    saw = None\n    h_ready({k}, tok)\n    try:\n        yield h_val({k}, tok)\n"
-                "    except BaseException as ex:\n        saw = ex\n" + tail).format(k=k, sig=sig, cx=cx, sw=swallow, post="")
+                "    except BaseException as ex:\n        saw = ex\n" + tail).format(k=k, sig=sig, cx=cx, sw=swallow, post="", cxo=cxo)
     if st in ("agen", "acm"):
         deco = "@contextlib.asynccontextmanager\n" if st == "acm" else ""
         post = "    if not isinstance(saw, GeneratorExit):\n        await h_pause()\n"
         return (deco + "async def node_{k}({sig}):\n    tok = h_enter({k}, {cx})\n    h_fail({k}, tok, 'early')\n"
                 "    await h_pause()\n    h_fail({k}, tok, 'late')\n"
                 "    saw = None\n    h_ready({k}, tok)\n    try:\n        yield h_val({k}, tok)\n"
-                "    except BaseException as ex:\n        saw = ex\n" + tail).format(k=k, sig=sig, cx=cx, sw=swallow, post=post)
+                "    except BaseException as ex:\n        saw = ex\n" + tail).format(k=k, sig=sig, cx=cx, sw=swallow, post=post, cxo=cxo)
     raise ValueError(st)
 
 
@@ -322,7 +397,8 @@ def summarize(result):
     return {"is_err": bool(result.is_err), "ret": rv if isinstance(rv, (dict, type(None))) else repr(rv)[:80],
             "err": None if err is None else type(err).__name__,
             "err_payload": err.args[0] if err is not None and err.args and isinstance(err.args[0], dict) else None,
-            "who": result.labels.get("who") if isinstance(result.labels, dict) else None}
+            "who": result.labels.get("who") if isinstance(result.labels, dict) else None,
+            "labels": jsonable(result.labels) if isinstance(result.labels, dict) else repr(result.labels)[:60]}
 
 
 class RecBackend(AsyncResultBackend):
@@ -386,6 +462,16 @@ def _run_case(case):
     ns.update(UserCfg=UserCfg, Context=Context, TaskiqDepends=TaskiqDepends, contextlib=contextlib, h_enter=h_enter, h_fail=h_fail,
               h_pause=h_pause, h_ready=h_ready, h_close=h_close, h_closed=h_closed, h_val=h_val, h_body=h_body,
               h_body_sync=h_body_sync)
+    run = R
+
+    def this_run_only(fn):
+        # a dependency object the framework never finalised may be finalised by the garbage collector while a later
+        # case runs in this process: that is not an event of the later case
+        def guarded(*a, **k):
+            return fn(*a, **k) if R is run else None
+        return guarded
+
+    ns.update(h_close=this_run_only(h_close), h_closed=this_run_only(h_closed))
     for k, n in enumerate(case["nodes"]):
         exec(node_src(k, n), ns)
     broker = InMemoryBroker(propagate_exceptions=bool(case.get("propagate", True)))
@@ -397,7 +483,9 @@ def _run_case(case):
     R.broker = broker
     for t, spec in enumerate(case["tasks"]):
         exec(task_src(t, spec), ns)
-        broker.register_task(ns["task_%d" % t], task_name="task_%d" % t)
+        # labels a task is declared with (normally merged into the message by the kicker; a message built by another
+        # client - as here - carries only what it was sent with)
+        broker.register_task(ns["task_%d" % t], task_name="task_%d" % t, **(spec.get("labels") or {}))
     if case.get("overrides"):
         # resolved per execution: async_ctx builds a new DependencyGraph(target, replaced_deps) for every message
         broker.dependency_overrides = {ns["node_%d" % a]: ns["node_%d" % b] for a, b in case["overrides"]}
@@ -408,14 +496,24 @@ def _run_case(case):
         receiver = Receiver(broker=broker, executor=broker.executor, validate_params=True, max_async_tasks=None,
                             propagate_exceptions=bool(case.get("propagate", True)), run_startup=False,
                             ack_type=ACK[ack])
-    datas = []
+    async def rec_kick(message):
+        # Context.requeue() ends here: nothing is executed again, the re-sent message is only recorded
+        R.ev("kick", EXEC.get(), message.task_id, jsonable(message.labels))
+        await asyncio.sleep(0)
+
+    broker.kick = rec_kick
+    datas, sent = [], {}
     for i, m in enumerate(case["msgs"]):
-        labels = {"who": i}
-        if m.get("timeout") is not None:
+        # several deliveries may carry one task id (duplicate kick) or be the very same message (redelivery: same
+        # content, the same bytes object); executions are identified by the delivery index
+        c = m.get("content", i)
+        labels = {} if m.get("nolabels") else {"who": c}
+        if m.get("timeout") is not None and not m.get("nolabels"):
             labels["timeout"] = m["timeout"] / 1_000_000
-        msg = TaskiqMessage(task_id="m%d" % i, task_name="task_%d" % m["task"], labels=labels, args=[i],
-                            kwargs={"kw": i} if m.get("kw", True) else {})
-        datas.append(broker.formatter.dumps(msg).message)
+        msg = TaskiqMessage(task_id="m%d" % m.get("tid", i), task_name="task_%d" % m["task"], labels=labels, args=[c],
+                            kwargs={"kw": c} if m.get("kw", True) else {})
+        data = broker.formatter.dumps(msg).message
+        datas.append(sent.setdefault(data, data))
 
     async def runner(i, m):
         EXEC.set(i)
